@@ -2,7 +2,9 @@
    Main results:
      ipv4_roundtrip      parse_v4 (show_v4 a) = Some a            for all a < 2^32
      ipv4_roundtrip_ip   parse_ip (show_v4 a) = Some (V4 a)
-     show_v4_chars       show_v4 a consists of decimal digits and dots only *)
+     show_v4_chars       show_v4 a consists of decimal digits and dots only
+     ipv6_roundtrip      parse_ip (show_v6 g) = Some (V6 g)       for all 8 x u16 g
+     show_v6_chars       show_v6 g consists of [0-9a-f], ':' and '.' only and is not empty *)
 From RV Require Import Base.Prelude Name.NameModel Name.NameSpec Name.NameProofs Ip.IpModel.
 From Coq Require Import ZArith Lia.
 
@@ -174,3 +176,476 @@ Example ipv4_rejects : parse_v4 [48;49;46;50;46;51;46;52] = None
                        /\ parse_v4 [49;46;50;46;51;46;52;46;53] = None
                        /\ parse_v4 [49;46;50;46;51;46;50;53;54] = None.
 Proof. vm_compute. repeat split; reflexivity. Qed.
+
+(* ====================================================================== *)
+(* IPv6: Display, then FromStr, is the identity                             *)
+(* ====================================================================== *)
+
+Fixpoint digits_of (radix : N) (ds : list N) : option (list N) :=
+  match ds with
+  | [] => Some []
+  | c :: t => match to_digit radix c, digits_of radix t with
+              | Some d, Some vs => Some (d :: vs)
+              | _, _ => None
+              end
+  end.
+
+Definition gval (radix : N) (vs : list N) (r : N) : N := fold_left (fun acc d => acc * radix + d) vs r.
+
+Lemma read_digits_gen radix maxd ds : forall vs rest r cnt,
+  digits_of radix ds = Some vs -> nondigit_head radix rest -> cnt + llen ds <= maxd ->
+  read_digits radix maxd (ds ++ rest) r cnt = Some (gval radix vs r, cnt + llen ds, rest).
+Proof.
+  induction ds as [|d ds IH]; intros vs rest r cnt Hd Hn Hc.
+  - injection Hd as <-. cbn [app gval fold_left]. rewrite llen_nil, N.add_0_r.
+    destruct rest as [|c t]; cbn [read_digits]; [reflexivity|].
+    cbn [nondigit_head] in Hn. rewrite Hn. reflexivity.
+  - cbn [digits_of] in Hd. destruct (to_digit radix d) as [v|] eqn:Ev; [|discriminate].
+    destruct (digits_of radix ds) as [vs'|] eqn:Evs; [|discriminate]. injection Hd as <-.
+    rewrite llen_cons in Hc. cbn [app read_digits]. rewrite Ev.
+    assert (maxd <? cnt + 1 = false) as -> by (apply N.ltb_ge; lia).
+    rewrite (IH vs' rest _ _ eq_refl Hn) by lia.
+    rewrite llen_cons. cbn [gval fold_left]. f_equal. f_equal. f_equal. lia.
+Qed.
+
+(* everything about the hex rendering of a u16, checked over all 16^4 values *)
+Definition hexc (c : N) : bool := is_digit c || ((97 <=? c) && (c <=? 102)).
+
+Definition hex_ok (x : N) : bool :=
+  let ds := show_hex16 x in
+  match digits_of 16 ds with
+  | Some vs => (gval 16 vs 0 =? x) && (1 <=? llen ds) && (llen ds <=? 4) && forallb hexc ds
+  | None => false
+  end.
+
+Definition l16 : list N := [0;1;2;3;4;5;6;7;8;9;10;11;12;13;14;15].
+
+Lemma hex_ok_sweep :
+  forallb (fun a => forallb (fun b => forallb (fun c => forallb (fun d =>
+    hex_ok (a * 4096 + b * 256 + c * 16 + d)) l16) l16) l16) l16 = true.
+Proof. vm_compute. reflexivity. Qed.
+
+Lemma in_l16 x : x < 16 -> In x l16.
+Proof.
+  intros H.
+  assert (D : x = 0 \/ x = 1 \/ x = 2 \/ x = 3 \/ x = 4 \/ x = 5 \/ x = 6 \/ x = 7 \/ x = 8 \/ x = 9
+              \/ x = 10 \/ x = 11 \/ x = 12 \/ x = 13 \/ x = 14 \/ x = 15) by lia.
+  unfold l16. cbn [In]. intuition.
+Qed.
+
+Lemma nibbles x : x < 65536 ->
+  x = (x / 4096) * 4096 + ((x / 256) mod 16) * 256 + ((x / 16) mod 16) * 16 + x mod 16
+  /\ x / 4096 < 16.
+Proof.
+  intros Hx.
+  change 4096 with (16 * 16 * 16). change 256 with (16 * 16).
+  rewrite <- !N.div_div by discriminate.
+  pose proof (N.div_mod x 16 ltac:(discriminate)) as E0.
+  pose proof (N.div_mod (x / 16) 16 ltac:(discriminate)) as E1.
+  pose proof (N.div_mod (x / 16 / 16) 16 ltac:(discriminate)) as E2.
+  assert (B : x / 16 / 16 / 16 < 16).
+  { apply N.div_lt_upper_bound; [discriminate|]. apply N.div_lt_upper_bound; [discriminate|].
+    apply N.div_lt_upper_bound; [discriminate|]. lia. }
+  generalize dependent (x mod 16). generalize dependent ((x / 16) mod 16).
+  generalize dependent ((x / 16 / 16) mod 16). generalize dependent (x / 16 / 16 / 16).
+  generalize dependent (x / 16 / 16). generalize dependent (x / 16).
+  intros. split; [lia|assumption].
+Qed.
+
+Lemma m16 y : y mod 16 < 16.
+Proof. apply N.mod_lt. discriminate. Qed.
+
+Lemma hex_ok_all x : x < 65536 -> hex_ok x = true.
+Proof.
+  intros Hx. destruct (nibbles x Hx) as [E B].
+  pose proof hex_ok_sweep as S.
+  rewrite forallb_forall in S. specialize (S (x / 4096) (in_l16 _ B)).
+  rewrite forallb_forall in S. specialize (S ((x / 256) mod 16) (in_l16 _ (m16 _))).
+  rewrite forallb_forall in S. specialize (S ((x / 16) mod 16) (in_l16 _ (m16 _))).
+  rewrite forallb_forall in S. specialize (S (x mod 16) (in_l16 _ (m16 _))).
+  rewrite <- E in S. exact S.
+Qed.
+
+Lemma read_number_hex x rest : x < 65536 -> nondigit_head 16 rest ->
+  read_number 16 4 true 65535 (show_hex16 x ++ rest) = Some (x, rest).
+Proof.
+  intros Hx Hn. pose proof (hex_ok_all x Hx) as K. unfold hex_ok in K. cbv zeta in K.
+  destruct (digits_of 16 (show_hex16 x)) as [vs|] eqn:Ed; [|discriminate].
+  rewrite !andb_true_iff in K. destruct K as [[[K1 K2] K3] _].
+  apply N.eqb_eq in K1. apply N.leb_le in K2, K3.
+  unfold read_number. rewrite (read_digits_gen 16 4 _ vs rest 0 0 Ed Hn) by lia.
+  rewrite N.add_0_l, K1.
+  assert (llen (show_hex16 x) =? 0 = false) as -> by (apply N.eqb_neq; lia).
+  assert (x <=? 65535 = true) as -> by (apply N.leb_le; lia).
+  cbn [negb andb]. reflexivity.
+Qed.
+
+Lemma show_hex16_chars x : x < 65536 -> Forall (fun c => hexc c = true) (show_hex16 x).
+Proof.
+  intros Hx. pose proof (hex_ok_all x Hx) as K. unfold hex_ok in K. cbv zeta in K.
+  destruct (digits_of 16 (show_hex16 x)); [|discriminate].
+  rewrite !andb_true_iff in K. destruct K as [_ K]. apply Forall_forall. rewrite forallb_forall in K. exact K.
+Qed.
+
+(* ---- the embedded-IPv4 attempts fail on text without a dot ---- *)
+
+Lemma read_digits_suffix radix maxd s : forall r c v n rest,
+  read_digits radix maxd s r c = Some (v, n, rest) -> exists pre, s = pre ++ rest.
+Proof.
+  induction s as [|x s IH]; intros r c v n rest H; cbn [read_digits] in H.
+  - injection H as _ _ <-. exists []. reflexivity.
+  - destruct (to_digit radix x).
+    + destruct (maxd <? c + 1); [discriminate|]. destruct (IH _ _ _ _ _ H) as (pre & ->). exists (x :: pre). reflexivity.
+    + injection H as _ _ <-. exists []. reflexivity.
+Qed.
+
+Lemma read_number_suffix radix maxd az bound s v rest :
+  read_number radix maxd az bound s = Some (v, rest) -> exists pre, s = pre ++ rest.
+Proof.
+  unfold read_number. destruct (read_digits radix maxd s 0 0) as [[[r cnt] rest']|] eqn:E; [|discriminate].
+  destruct (cnt =? 0); [discriminate|]. destruct (negb az && _ && _); [discriminate|].
+  destruct (r <=? bound); [|discriminate]. intros [= <- <-]. eapply read_digits_suffix. exact E.
+Qed.
+
+Lemma read_ipv4_nodot s : ~ In 46 s -> read_ipv4_addr s = None.
+Proof.
+  intros H. unfold read_ipv4_addr.
+  destruct (read_octet 0 s) as [[a s1]|] eqn:E0; [|reflexivity].
+  unfold read_octet, read_separator in E0. assert (0 <? 0 = false) as X by reflexivity. rewrite X in E0.
+  apply read_number_suffix in E0 as (pre & ->).
+  unfold read_octet at 1. unfold read_separator. assert (0 <? 1 = true) as -> by reflexivity.
+  destruct s1 as [|c t]; [reflexivity|].
+  destruct (N.eqb_spec c 46) as [->|]; [|reflexivity].
+  exfalso. apply H. apply in_or_app. right. left. reflexivity.
+Qed.
+
+Lemma read_sep_ipv4_nodot i s : ~ In 46 s -> read_separator 58 i read_ipv4_addr s = None.
+Proof.
+  intros H. unfold read_separator. destruct (0 <? i).
+  - destruct s as [|c t]; [reflexivity|]. destruct (c =? 58); [|reflexivity].
+    apply read_ipv4_nodot. intros X. apply H. right. exact X.
+  - apply read_ipv4_nodot. exact H.
+Qed.
+
+(* ---- reading colon-separated groups ---- *)
+
+Definition colon_groups (xs : list N) : list N := flat_map (fun x => 58 :: show_hex16 x) xs.
+
+Lemma fmt_subslice_cons x xs : fmt_subslice (x :: xs) = show_hex16 x ++ colon_groups xs.
+Proof.
+  revert x. induction xs as [|y xs IH]; intros x.
+  - cbn [fmt_subslice colon_groups flat_map]. rewrite app_nil_r. reflexivity.
+  - change (fmt_subslice (x :: y :: xs)) with (show_hex16 x ++ 58 :: fmt_subslice (y :: xs)).
+    rewrite IH. reflexivity.
+Qed.
+
+(* where reading stops: at the end of the text or before "::" *)
+Definition stop (rest : list N) : Prop := rest = [] \/ exists t, rest = 58 :: 58 :: t.
+
+Lemma stop_nondigit rest : stop rest -> nondigit_head 16 rest.
+Proof. intros [->|(t & ->)]; reflexivity. Qed.
+
+Lemma colon_nondigit xs rest : stop rest -> nondigit_head 16 (colon_groups xs ++ rest).
+Proof. intros H. destruct xs; [apply stop_nondigit; exact H|reflexivity]. Qed.
+
+Lemma read_group_stop i rest : stop rest ->
+  read_separator 58 i (read_number 16 4 true 65535) rest = None.
+Proof.
+  intros [->|(t & ->)]; unfold read_separator; destruct (0 <? i); reflexivity.
+Qed.
+
+Lemma nodot_hex x : x < 65536 -> ~ In 46 (show_hex16 x).
+Proof.
+  intros Hx Hin. pose proof (show_hex16_chars x Hx) as H. rewrite Forall_forall in H.
+  specialize (H 46 Hin). discriminate H.
+Qed.
+
+Lemma nodot_colon xs : Forall (fun x => x < 65536) xs -> ~ In 46 (colon_groups xs).
+Proof.
+  induction 1 as [|x xs Hx _ IH]; [intros []|]. cbn [colon_groups flat_map]. fold (colon_groups xs).
+  intros [E|Hin]; [discriminate|]. apply in_app_or in Hin as [Hin|Hin]; [exact (nodot_hex x Hx Hin)|exact (IH Hin)].
+Qed.
+
+(* groups after the first: each preceded by ':' *)
+Lemma read_groups_colon xs : forall k i limit acc rest,
+  0 < i -> Forall (fun x => x < 65536) xs -> stop rest -> ~ In 46 rest ->
+  read_groups (length xs + k) i limit acc (colon_groups xs ++ rest)
+  = read_groups k (i + llen xs) limit (acc ++ xs) rest.
+Proof.
+  induction xs as [|x xs IH]; intros k i limit acc rest Hi Hx Hs Hd.
+  - cbn [length plus colon_groups flat_map app]. rewrite llen_nil, N.add_0_r, app_nil_r. reflexivity.
+  - inversion Hx as [|? ? Hx0 Hx']; subst.
+    cbn [length plus read_groups].
+    assert (Hnd : ~ In 46 (colon_groups (x :: xs) ++ rest)).
+    { intros Hin. apply in_app_or in Hin as [Hin|Hin]; [exact (nodot_colon (x :: xs) Hx Hin)|exact (Hd Hin)]. }
+    assert ((if i + 1 <? limit then read_separator 58 i read_ipv4_addr (colon_groups (x :: xs) ++ rest) else None) = None) as ->.
+    { destruct (i + 1 <? limit); [apply read_sep_ipv4_nodot; exact Hnd|reflexivity]. }
+    cbn [colon_groups flat_map]. fold (colon_groups xs). rewrite <- !app_assoc. cbn [app].
+    unfold read_separator at 1. assert (0 <? i = true) as -> by (apply N.ltb_lt; exact Hi).
+    assert (58 =? 58 = true) as -> by reflexivity.
+    rewrite (read_number_hex x _ Hx0 (colon_nondigit xs rest Hs)).
+    rewrite (IH k (i + 1) limit (acc ++ [x]) rest) by (assumption || lia).
+    rewrite llen_cons, <- app_assoc. cbn [app]. f_equal. lia.
+Qed.
+
+(* a whole colon-separated list from index 0 *)
+Lemma read_groups_list xs : forall k limit rest,
+  Forall (fun x => x < 65536) xs -> stop rest -> ~ In 46 rest ->
+  read_groups (length xs + k) 0 limit [] (fmt_subslice xs ++ rest)
+  = read_groups k (llen xs) limit xs rest.
+Proof.
+  intros k limit rest Hx Hs Hd. destruct xs as [|x xs]; [reflexivity|].
+  inversion Hx as [|? ? Hx0 Hx']; subst.
+  rewrite fmt_subslice_cons, <- app_assoc. cbn [length plus read_groups].
+  assert (Hnd : ~ In 46 (show_hex16 x ++ colon_groups xs ++ rest)).
+  { intros Hin. apply in_app_or in Hin as [Hin|Hin]; [exact (nodot_hex x Hx0 Hin)|].
+    apply in_app_or in Hin as [Hin|Hin]; [exact (nodot_colon xs Hx' Hin)|exact (Hd Hin)]. }
+  assert ((if 0 + 1 <? limit then read_separator 58 0 read_ipv4_addr (show_hex16 x ++ colon_groups xs ++ rest) else None) = None) as ->.
+  { destruct (0 + 1 <? limit); [apply read_sep_ipv4_nodot; exact Hnd|reflexivity]. }
+  unfold read_separator at 1. assert (0 <? 0 = false) as -> by reflexivity.
+  rewrite (read_number_hex x _ Hx0 (colon_nondigit xs rest Hs)).
+  rewrite (read_groups_colon xs k (0 + 1) limit ([] ++ [x]) rest) by (assumption || lia).
+  cbn [app]. rewrite llen_cons. f_equal; lia.
+Qed.
+
+(* the loop stops where the text does *)
+Lemma read_groups_stop k i limit acc rest : stop rest -> ~ In 46 rest ->
+  read_groups k i limit acc rest = (acc, false, rest).
+Proof.
+  intros Hs Hd. destruct k as [|k]; [reflexivity|]. cbn [read_groups].
+  assert ((if i + 1 <? limit then read_separator 58 i read_ipv4_addr rest else None) = None) as ->.
+  { destruct (i + 1 <? limit); [apply read_sep_ipv4_nodot; exact Hd|reflexivity]. }
+  rewrite (read_group_stop i rest Hs). reflexivity.
+Qed.
+
+(* ---- the run of zeros chosen by Display ---- *)
+
+Definition of_pat (pat : list bool) : list N := map (fun b : bool => if b then 0 else 1) pat.
+
+Lemma zero_span_pat g : forall i a b c d,
+  zero_span g i a b c d = zero_span (of_pat (map (fun x => x =? 0) g)) i a b c d.
+Proof.
+  induction g as [|x g IH]; intros i a b c d; [reflexivity|].
+  cbn [map of_pat zero_span]. fold (of_pat (map (fun x => x =? 0) g)).
+  destruct (x =? 0); cbn [N.eqb]; [change (0 =? 0) with true|change (1 =? 0) with false]; cbv iota;
+    [destruct (b <? d + 1)|]; apply IH.
+Qed.
+
+Fixpoint pats (n : nat) : list (list bool) :=
+  match n with
+  | O => [[]]
+  | S m => flat_map (fun p => [true :: p; false :: p]) (pats m)
+  end.
+
+Lemma in_pats l : In l (pats (length l)).
+Proof.
+  induction l as [|b l IH]; [left; reflexivity|]. cbn [length pats]. apply in_flat_map. exists l. split; [exact IH|].
+  destruct b; [left|right; left]; reflexivity.
+Qed.
+
+Definition span_ok (pat : list bool) : bool :=
+  let '(s, l) := zero_span (of_pat pat) 0 0 0 0 0 in
+  (l <=? 1) || ((s + l <=? 8) && forallb (fun b : bool => b) (firstn (N.to_nat l) (skipn (N.to_nat s) pat))).
+
+Lemma span_ok_sweep : forallb span_ok (pats 8) = true.
+Proof. vm_compute. reflexivity. Qed.
+
+Lemma all_zero_zeros m : Forall (fun x => x = 0) m -> m = zeros (length m).
+Proof. induction 1 as [|x m -> _ IH]; [reflexivity|]. cbn [length zeros]. rewrite <- IH. reflexivity. Qed.
+
+Lemma skipn_add {A} (a b : nat) (l : list A) : skipn a (skipn b l) = skipn (b + a) l.
+Proof.
+  revert l. induction b as [|b IH]; intros l; [reflexivity|]. destruct l as [|x l]; [destruct a; reflexivity|].
+  cbn [skipn plus]. apply IH.
+Qed.
+
+(* the span is a run of zeros inside the address (when it is used at all) *)
+Lemma zero_span_facts g s l : length g = 8%nat -> zero_span g 0 0 0 0 0 = (s, l) -> 1 < l ->
+  (N.to_nat s + N.to_nat l <= 8)%nat
+  /\ g = firstn (N.to_nat s) g ++ zeros (N.to_nat l) ++ skipn (N.to_nat (s + l)) g.
+Proof.
+  intros Hlen Hz Hl. rewrite zero_span_pat in Hz.
+  pose proof span_ok_sweep as S. rewrite forallb_forall in S.
+  assert (Hin : In (map (fun x => x =? 0) g) (pats 8)).
+  { rewrite <- Hlen, <- (map_length (fun x => x =? 0) g). apply in_pats. }
+  specialize (S _ Hin). unfold span_ok in S. rewrite Hz in S.
+  apply orb_true_iff in S as [S|S]; [apply N.leb_le in S; lia|].
+  apply andb_true_iff in S as [S1 S2]. apply N.leb_le in S1.
+  assert (Hb : (N.to_nat s + N.to_nat l <= 8)%nat) by lia.
+  split; [exact Hb|].
+  rewrite skipn_map, firstn_map in S2.
+  assert (Hmid : Forall (fun x => x = 0) (firstn (N.to_nat l) (skipn (N.to_nat s) g))).
+  { apply Forall_forall. intros x Hx. rewrite forallb_forall in S2.
+    specialize (S2 (x =? 0) (in_map (fun x => x =? 0) _ x Hx)). apply N.eqb_eq. exact S2. }
+  apply all_zero_zeros in Hmid.
+  rewrite firstn_length, skipn_length, Hlen in Hmid.
+  replace (Nat.min (N.to_nat l) (8 - N.to_nat s)) with (N.to_nat l) in Hmid by lia.
+  rewrite <- Hmid.
+  replace (N.to_nat (s + l)) with (N.to_nat s + N.to_nat l)%nat by lia.
+  rewrite <- skipn_add, firstn_skipn, firstn_skipn. reflexivity.
+Qed.
+
+(* ---- the printed text ---- *)
+
+Definition wf_v6 (g : list N) : Prop := length g = 8%nat /\ Forall (fun x => x < 65536) g.
+
+Definition addrc (c : N) : Prop := hexc c = true \/ c = 58 \/ c = 46.
+
+Lemma fmt_subslice_chars xs : Forall (fun x => x < 65536) xs -> Forall addrc (fmt_subslice xs).
+Proof.
+  intros H. destruct xs as [|x xs]; [constructor|]. rewrite fmt_subslice_cons.
+  inversion H as [|? ? Hx Hxs]; subst. apply Forall_app. split.
+  - eapply Forall_impl; [|apply show_hex16_chars; exact Hx]. intros c Hc. left. exact Hc.
+  - clear Hx H. induction Hxs as [|y ys Hy _ IH]; [constructor|]. cbn [colon_groups flat_map]. fold (colon_groups ys).
+    constructor; [right; left; reflexivity|]. apply Forall_app. split; [|exact IH].
+    eapply Forall_impl; [|apply show_hex16_chars; exact Hy]. intros c Hc. left. exact Hc.
+Qed.
+
+Lemma fmt_subslice_nodot xs : Forall (fun x => x < 65536) xs -> ~ In 46 (fmt_subslice xs).
+Proof.
+  intros H. destruct xs as [|x xs]; [intros []|]. rewrite fmt_subslice_cons. inversion H; subst.
+  intros Hin. apply in_app_or in Hin as [Hin|Hin]; [eapply nodot_hex; eassumption|eapply nodot_colon; eassumption].
+Qed.
+
+Lemma addrc_ascii c : addrc c -> c < 128.
+Proof.
+  intros [H|[->| ->]]; [|reflexivity|reflexivity]. unfold hexc in H. apply orb_true_iff in H as [H|H].
+  - apply is_digit_range in H. lia.
+  - apply andb_true_iff in H as [_ H]. apply N.leb_le in H. lia.
+Qed.
+
+Lemma forall_firstn {A} (P : A -> Prop) n l : Forall P l -> Forall P (firstn n l).
+Proof. intros H. rewrite <- (firstn_skipn n l) in H. apply Forall_app in H. tauto. Qed.
+Lemma forall_skipn {A} (P : A -> Prop) n l : Forall P l -> Forall P (skipn n l).
+Proof. intros H. rewrite <- (firstn_skipn n l) in H. apply Forall_app in H. tauto. Qed.
+
+Lemma llen_length {A} (l : list A) n : length l = n -> llen l = N.of_nat n.
+Proof. intros <-. reflexivity. Qed.
+
+(* parsing the compressed form  A::B *)
+Lemma parse_compressed (A B : list N) :
+  Forall (fun x => x < 65536) A -> Forall (fun x => x < 65536) B -> (length A + length B <= 6)%nat ->
+  parse_ip_bytes (fmt_subslice A ++ [58; 58] ++ fmt_subslice B)
+  = Some (V6 (A ++ zeros (8 - length A - length B) ++ B)).
+Proof.
+  intros HA HB Hlen. unfold parse_ip_bytes.
+  assert (Hnd : ~ In 46 (fmt_subslice A ++ [58; 58] ++ fmt_subslice B)).
+  { intros Hin. apply in_app_or in Hin as [Hin|Hin]; [exact (fmt_subslice_nodot A HA Hin)|].
+    cbn [app] in Hin. destruct Hin as [E|[E|Hin]]; try discriminate. exact (fmt_subslice_nodot B HB Hin). }
+  rewrite (read_ipv4_nodot _ Hnd). unfold read_ipv6_addr.
+  assert (Hstop : stop ([58; 58] ++ fmt_subslice B)) by (right; eexists; reflexivity).
+  assert (Hnd2 : ~ In 46 ([58; 58] ++ fmt_subslice B)).
+  { cbn [app]. intros [E|[E|Hin]]; try discriminate. exact (fmt_subslice_nodot B HB Hin). }
+  replace 8%nat with (length A + (8 - length A))%nat at 1 by lia.
+  rewrite (read_groups_list A _ 8 _ HA Hstop Hnd2), (read_groups_stop _ _ _ _ _ Hstop Hnd2).
+  assert (LA : llen A = N.of_nat (length A)) by reflexivity.
+  assert (llen A =? 8 = false) as -> by (apply N.eqb_neq; lia).
+  cbn [app].
+  assert (Hstop0 : stop []) by (left; reflexivity).
+  set (limit := 8 - (llen A + 1)).
+  assert (Hlim : N.to_nat limit = (length B + (7 - length A - length B))%nat) by (unfold limit; lia).
+  rewrite Hlim, <- (app_nil_r (fmt_subslice B)).
+  rewrite (read_groups_list B _ limit [] HB Hstop0 (fun x => x)), (read_groups_stop _ _ _ _ _ Hstop0 (fun x => x)).
+  cbn [is_nil]. reflexivity.
+Qed.
+
+Lemma parse_full (g : list N) : wf_v6 g -> parse_ip_bytes (fmt_subslice g) = Some (V6 g).
+Proof.
+  intros [Hlen Hg]. unfold parse_ip_bytes.
+  rewrite (read_ipv4_nodot _ (fmt_subslice_nodot g Hg)). unfold read_ipv6_addr.
+  assert (Hstop0 : stop []) by (left; reflexivity).
+  rewrite <- (app_nil_r (fmt_subslice g)).
+  replace 8%nat with (length g + 0)%nat at 1 by lia.
+  rewrite (read_groups_list g 0 8 [] Hg Hstop0 (fun x => x)). cbn [read_groups].
+  rewrite (llen_length g 8 Hlen). cbn. reflexivity.
+Qed.
+
+Lemma mapped_shape g v : ipv4_mapped g = Some v ->
+  exists g6 g7, g = [0; 0; 0; 0; 0; 65535; g6; g7] /\ v = g6 * 65536 + g7.
+Proof.
+  unfold ipv4_mapped.
+  destruct g as [|a [|b [|c [|d [|e [|f [|g6 [|g7 [|x t]]]]]]]]]; try discriminate.
+  destruct ((a =? 0) && (b =? 0) && (c =? 0) && (d =? 0) && (e =? 0) && (f =? 65535)) eqn:E; [|discriminate].
+  rewrite !andb_true_iff, !N.eqb_eq in E. destruct E as [[[[[-> ->] ->] ->] ->] ->].
+  intros [= <-]. exists g6, g7. split; reflexivity.
+Qed.
+
+Lemma parse_mapped g6 g7 : g6 < 65536 -> g7 < 65536 ->
+  parse_ip_bytes ([58; 58; 102; 102; 102; 102; 58] ++ show_v4 (g6 * 65536 + g7))
+  = Some (V6 [0; 0; 0; 0; 0; 65535; g6; g7]).
+Proof.
+  intros H6 H7. set (v := g6 * 65536 + g7). assert (Hv : v < 4294967296) by (unfold v; lia).
+  unfold parse_ip_bytes. cbn [app].
+  assert (read_ipv4_addr (58 :: 58 :: 102 :: 102 :: 102 :: 102 :: 58 :: show_v4 v) = None) as -> by reflexivity.
+  unfold read_ipv6_addr.
+  assert (read_groups 8 0 8 [] (58 :: 58 :: 102 :: 102 :: 102 :: 102 :: 58 :: show_v4 v)
+          = ([], false, 58 :: 58 :: 102 :: 102 :: 102 :: 102 :: 58 :: show_v4 v)) as -> by reflexivity.
+  change (llen (@nil N) =? 8) with false. cbv iota.
+  change (N.to_nat (8 - (llen (@nil N) + 1))) with 7%nat. change (8 - (llen (@nil N) + 1)) with 7.
+  assert (R : read_groups 7 0 7 [] (102 :: 102 :: 102 :: 102 :: 58 :: show_v4 v)
+              = ([65535; v / 65536; v mod 65536], true, [])).
+  { cbn [read_groups].
+    assert ((if 0 + 1 <? 7 then read_separator 58 0 read_ipv4_addr (102 :: 102 :: 102 :: 102 :: 58 :: show_v4 v) else None) = None) as -> by reflexivity.
+    unfold read_separator at 1. change (0 <? 0) with false. cbv iota.
+    change (102 :: 102 :: 102 :: 102 :: 58 :: show_v4 v) with (show_hex16 65535 ++ 58 :: show_v4 v).
+    rewrite (read_number_hex 65535 (58 :: show_v4 v) eq_refl eq_refl).
+    change (0 + 1 + 1 <? 7) with true. cbv iota.
+    unfold read_separator at 1. change (0 <? 0 + 1) with true. change (58 =? 58) with true. cbv iota.
+    rewrite <- (app_nil_r (show_v4 v)). rewrite (read_ipv4_show v [] Hv I). reflexivity. }
+  rewrite R. cbn [length zeros app is_nil Nat.sub].
+  assert (E1 : v / 65536 = g6) by (unfold v; rewrite N.div_add_l by discriminate; rewrite (N.div_small g7) by exact H7; lia).
+  assert (E2 : v mod 65536 = g7) by (unfold v; rewrite N.add_comm, N.mod_add by discriminate; apply N.mod_small; exact H7).
+  rewrite E1, E2. reflexivity.
+Qed.
+
+(* ipv6_roundtrip: what Display prints for an IPv6 address reads back as that address *)
+Theorem ipv6_roundtrip g : wf_v6 g -> parse_ip (show_v6 g) = Some (V6 g).
+Proof.
+  intros Hwf. pose proof Hwf as [Hlen Hg]. unfold parse_ip.
+  assert (Hascii : forall t, Forall addrc t -> utf8 t = t).
+  { intros t Ht. apply utf8_ascii. eapply Forall_impl; [|exact Ht]. intros c Hc. apply addrc_ascii. exact Hc. }
+  unfold show_v6. destruct (ipv4_mapped g) as [v|] eqn:Em.
+  - destruct (mapped_shape g v Em) as (g6 & g7 & -> & ->).
+    assert (H6 : g6 < 65536) by (rewrite Forall_forall in Hg; apply Hg; cbn [In]; tauto).
+    assert (H7 : g7 < 65536) by (rewrite Forall_forall in Hg; apply Hg; cbn [In]; tauto).
+    rewrite Hascii; [apply parse_mapped; assumption|].
+    apply Forall_app. split.
+    + repeat (constructor; [first [right; left; reflexivity | left; reflexivity]|]). constructor.
+    + eapply Forall_impl; [|apply show_v4_chars]. intros c [Hc| ->]; [left; unfold hexc; rewrite Hc; reflexivity|right; right; reflexivity].
+  - destruct (zero_span g 0 0 0 0 0) as [s l] eqn:Ez.
+    destruct (1 <? l) eqn:El.
+    + apply N.ltb_lt in El. destruct (zero_span_facts g s l Hlen Ez El) as [Hb Hdec].
+      set (A := firstn (N.to_nat s) g) in *. set (B := skipn (N.to_nat (s + l)) g) in *.
+      assert (HA : Forall (fun x => x < 65536) A) by (apply forall_firstn; exact Hg).
+      assert (HB : Forall (fun x => x < 65536) B) by (apply forall_skipn; exact Hg).
+      assert (LA : length A = N.to_nat s) by (unfold A; rewrite firstn_length; lia).
+      assert (LB : length B = (8 - N.to_nat s - N.to_nat l)%nat) by (unfold B; rewrite skipn_length; lia).
+      rewrite Hascii.
+      * rewrite (parse_compressed A B HA HB) by lia. rewrite LA, LB.
+        replace (8 - N.to_nat s - (8 - N.to_nat s - N.to_nat l))%nat with (N.to_nat l) by lia.
+        rewrite <- Hdec. reflexivity.
+      * apply Forall_app. split; [apply fmt_subslice_chars; exact HA|].
+        constructor; [right; left; reflexivity|]. constructor; [right; left; reflexivity|].
+        apply fmt_subslice_chars; exact HB.
+    + rewrite Hascii; [apply parse_full; exact Hwf|apply fmt_subslice_chars; exact Hg].
+Qed.
+
+(* printed IPv6 addresses consist of lower-case hex digits, ':' and '.' only, and are not empty *)
+Theorem show_v6_chars g : wf_v6 g -> Forall addrc (show_v6 g) /\ show_v6 g <> [].
+Proof.
+  intros [Hlen Hg]. unfold show_v6. destruct (ipv4_mapped g) as [v|].
+  - split; [|discriminate]. apply Forall_app. split.
+    + repeat (constructor; [first [right; left; reflexivity | left; reflexivity]|]). constructor.
+    + eapply Forall_impl; [|apply show_v4_chars]. intros c [Hc| ->]; [left; unfold hexc; rewrite Hc; reflexivity|right; right; reflexivity].
+  - destruct (zero_span g 0 0 0 0 0) as [s l]. destruct (1 <? l).
+    + split.
+      * apply Forall_app. split; [apply fmt_subslice_chars; apply forall_firstn; exact Hg|].
+        constructor; [right; left; reflexivity|]. constructor; [right; left; reflexivity|].
+        apply fmt_subslice_chars. apply forall_skipn. exact Hg.
+      * intros E. apply app_eq_nil in E as [_ E]. discriminate.
+    + split; [apply fmt_subslice_chars; exact Hg|].
+      destruct g as [|x g]; [discriminate|]. rewrite fmt_subslice_cons. inversion Hg; subst.
+      intros E. apply app_eq_nil in E as [E _].
+      pose proof (hex_ok_all x ltac:(assumption)) as K. unfold hex_ok in K. cbv zeta in K. rewrite E in K.
+      cbn [digits_of] in K. rewrite !andb_true_iff in K. destruct K as [[[_ K] _] _]. vm_compute in K. discriminate K.
+Qed.
